@@ -1392,7 +1392,8 @@ class SubElementStringListProperty(SubElementTextListProperty):
     """
 
     def __init__(self, sub_element_name: etree.QName | None, is_optional: bool = True):
-        super().__init__(sub_element_name, str, is_optional=is_optional)
+        # StringConverter reads an empty element as empty string (not None)
+        super().__init__(sub_element_name, str, is_optional=is_optional, element_converter=StringConverter)
 
 
 class SubElementHandleRefListProperty(SubElementStringListProperty):
